@@ -286,6 +286,32 @@ def inlined(prog, fi, depth=DEPTH, skip=()):
                     if _replace(st, c, ast.copy_location(ast.Name(id=tmp, ctx=ast.Load()), c)):
                         out.append(ast.copy_location(ast.Assign(targets=[ast.Name(id=tmp, ctx=ast.Store())], value=c), st))
                         changed[0] = True
+            if level > 0 and isinstance(st, ast.If):
+                # `if helper(...):`  ->  `t = helper(...)` ; `if t:`   (the test of an if statement is evaluated exactly once,
+                # before anything of its branches; calls under and / or / conditional expressions stay where they are)
+                for c in [x for x in ast.walk(st.test) if isinstance(x, ast.Call)]:
+                    callee = resolve(c, stack)
+                    if callee is None:
+                        continue
+                    p_, ok_ = c, True
+                    while p_ is not st.test and p_ is not None:
+                        p_ = getattr(p_, "_parent", None)
+                        if isinstance(p_, (ast.Lambda, ast.ListComp, ast.SetComp, ast.DictComp, ast.GeneratorExp, ast.IfExp, ast.BoolOp)):
+                            ok_ = False
+                    if not ok_:
+                        continue
+                    _COUNTER[0] += 1
+                    tmp = "inl__%s_%d" % (callee.name.strip("_"), _COUNTER[0])
+                    name = ast.copy_location(ast.Name(id=tmp, ctx=ast.Load()), c)
+                    if c is st.test:
+                        st.test = name
+                        done = True
+                    else:
+                        from .canon import _replace
+                        done = _replace(st.test, c, name)
+                    if done:
+                        out.append(ast.copy_location(ast.Assign(targets=[ast.Name(id=tmp, ctx=ast.Store())], value=c), st))
+                        changed[0] = True
             out.append(st)
         return out
 
